@@ -101,7 +101,10 @@ class EvaluatedName(PyName):
 
 
 class ParameterName(PyName):
-    pass
+    def get_definition_location(self):
+        # A keyword parameter of a function rope has no definition for
+        # (builtin, lambda): honour the (module, lineno) contract.
+        return (None, None)
 
 
 class ImportedModule(PyName):
